@@ -23,6 +23,22 @@ class Calls:
         outs = [(st, [])]
         for a in args:
             if isinstance(a, ast.Starred):
+                # *t[k:] for a tuple of statically known length: expanded element by element
+                v = a.value
+                if isinstance(v, ast.Subscript) and isinstance(v.slice, ast.Slice) and v.slice.upper is None and v.slice.step is None and isinstance(v.slice.lower, ast.Constant) and isinstance(v.slice.lower.value, int):
+                    nxt = []
+                    for s1, acc in outs:
+                        for s2, tup in self.ev(v.value, s1):
+                            tt = T.strip_opt(tup.ty)
+                            if tt.k != "tuple":
+                                raise Unsupported("*args of a value without static tuple type")
+                            s2 = s2.copy()
+                            if tup.ty.k == "opt":
+                                s2 = self.implicit_raise(s2, z3.Not(V.is_none(tup.term)), "TypeError", f"L{a.lineno}.star-none", "starred value is not None", a.lineno)
+                            vals = [self.list_read(s2, SV(tup.term, tt), z3.IntVal(i), tt.a[i]) for i in range(v.slice.lower.value, len(tt.a))]
+                            nxt.append((s2, acc + vals))
+                    outs = nxt
+                    continue
                 raise Unsupported("*args at call site")
             outs = [(s2, acc + [v]) for s1, acc in outs for s2, v in self.ev(a, s1)]
         return outs
@@ -406,6 +422,17 @@ class Calls:
                 elif ot.k in ("obj", "sub"):
                     cname = ot.a[0]
                     found = self.repo.find_method(cname, m)
+                    if found is None and self.class_has_field(cname, m):
+                        # obj.field(...) where the field holds a callable object (e.g. a Counter)
+                        fty = self.field_type(cname, m)
+                        fc = T.class_of(fty)
+                        callm = self.repo.find_method(fc, "__call__") if fc else None
+                        if callm is None:
+                            raise Unsupported(f"call of field {cname}.{m} of type {fty}")
+                        fobj = self.field_read(s2, o.term, m, fty)
+                        for s3, kwv in self.ev_kwargs(n, s2):
+                            out += self.call_function(callm[0], callm[1], [fobj] + vals, kwv, s3, line, f"{fc}.__call__")
+                        continue
                     if found is None:
                         raise Unsupported(f"method {cname}.{m} not found")
                     if ot.k == "sub":
